@@ -99,15 +99,17 @@ inline std::vector<double> gen_knots(Rng& r, int order, int extra /*nknots = 2*o
   int nk = 2 * order + 2 + extra;
   std::vector<double> k(nk);
   double v = (style == 3) ? -1e3 * r.unit() : (r.unit() * 20 - 10);
+  int mult = 1;
   for (int i = 0; i < nk; i++) {
     k[i] = v;
     double step;
     switch (style) {
       case 0: step = 1.0; break;
       case 1: step = 0.01 + r.unit() * 3; break;
-      case 2: step = r.coin(1, 3) ? 0.0 : 0.25 * (1 + r.below(8)); break;   // repeated knots
+      case 2: step = (r.coin(1, 4) && mult < order + 1) ? 0.0 : 0.25 * (1 + r.below(8)); break;   // repeated knots, multiplicity <= order+1
       default: step = std::ldexp(1.0 + r.unit(), r.range(-30, 30)); break;   // wildly varying spacing
     }
+    mult = (step == 0.0) ? mult + 1 : 1;
     v += step;
   }
   return k;
